@@ -44,7 +44,8 @@ type mSess struct {
 	readOnly bool
 	view     []uint32 // UIDs in the order the session numbers them
 	pend     []pendEv
-	flagUpd  []uint32 // transient: UIDs whose unsolicited FLAGS update was delivered by the last command
+	dirty    []uint32 // UIDs (sorted, unique) whose flags another session changed and whose unsolicited FETCH FLAGS may still be queued
+	flagUpd  []uint32 // transient: UIDs whose unsolicited FLAGS update may have been delivered by the last command
 }
 
 const (
@@ -108,7 +109,7 @@ func (m *model) clone() *model {
 	}
 	for i := range m.sess {
 		s := m.sess[i]
-		c.sess[i] = mSess{box: cp(s.box), readOnly: s.readOnly, view: append([]uint32(nil), s.view...), pend: append([]pendEv(nil), s.pend...)}
+		c.sess[i] = mSess{box: cp(s.box), readOnly: s.readOnly, view: append([]uint32(nil), s.view...), pend: append([]pendEv(nil), s.pend...), dirty: append([]uint32(nil), s.dirty...)}
 	}
 	return c
 }
@@ -199,6 +200,9 @@ func (m *model) key() [16]byte {
 		fmt.Fprintf(&sb, "S%d:", i)
 		if s.box != nil {
 			_, known := ids[s.box.id]
+			// dirty (possibly queued unsolicited flag updates) is deliberately not part of the key: it only
+			// widens what a leaf FETCH tolerates, and every execution replays the representative
+			// history its model was derived from
 			fmt.Fprintf(&sb, "b%d r%v v%v p%v", id(s.box), s.readOnly, s.view, s.pend)
 			if !known { // orphan: its content is part of the state
 				box(s.box)
@@ -480,8 +484,6 @@ func (s *mSess) sync(allowExpunge bool) {
 		}
 		n++
 		switch ev.kind {
-		case 'F':
-			s.flagUpd = append(s.flagUpd, ev.uid)
 		case 'A':
 			s.view = append(s.view, ev.uid)
 		case 'X':
@@ -494,6 +496,22 @@ func (s *mSess) sync(allowExpunge bool) {
 		}
 	}
 	s.pend = append([]pendEv(nil), s.pend[n:]...)
+	// unsolicited flag updates travel in the same queue: all of them may have been delivered now;
+	// some may remain queued behind a withheld expunge
+	s.flagUpd = append([]uint32(nil), s.dirty...)
+	if len(s.pend) == 0 {
+		s.dirty = nil
+	}
+}
+
+func (s *mSess) markDirty(uid uint32) {
+	for _, u := range s.dirty {
+		if u == uid {
+			return
+		}
+	}
+	s.dirty = append(s.dirty, uid)
+	sort.Slice(s.dirty, func(i, j int) bool { return s.dirty[i] < s.dirty[j] })
 }
 
 func (m *model) removeMsgs(b *mBox, idx []int) {
@@ -642,6 +660,10 @@ func (m *model) apply(c cmd, q quirks, ok bool) expect {
 			// whether the server says NO or OK-and-does-nothing is its choice
 			e.status = "any"
 			if ok {
+				if !c.UID {
+					s.sync(false)
+					return e
+				}
 				break
 			}
 			return e
@@ -652,7 +674,7 @@ func (m *model) apply(c cmd, q quirks, ok bool) expect {
 			// model only needs to know that one may arrive)
 			for k := range m.sess {
 				if k != c.S && m.sess[k].box == s.box {
-					m.sess[k].pend = append(m.sess[k].pend, pendEv{'F', g.uid})
+					m.sess[k].markDirty(g.uid)
 				}
 			}
 			cur := strings.Fields(g.flags)
